@@ -182,12 +182,49 @@ def has_stmt(p, kind):
 
 # --------------------------------------------------------------------------------------------- pyscript side
 class _WallTimeout(BaseException):
-    """raised by SIGPROF (process CPU time: robust against machine load) inside a statement that does not terminate;
-    a BaseException, so that user `except Exception` lets it pass"""
+    """raised by the SIGPROF safety net (process CPU time, generous); a BaseException, so that user
+    `except Exception` lets it pass.  It never decides a verdict by itself: see _guard / run_impl."""
+
+
+class _StepBudget(BaseException):
+    """the statement evaluated more AST nodes than the step budget allows: the load-independent divergence test"""
+
+
+# why a run was cut: None | "steps" (deterministic: AST nodes evaluated) | "cpu" / "wall" (safety nets, load dependent)
+_guard = {"kind": None}
+_steps = {"n": 0, "limit": None}
+STEP_BUDGET = 200_000        # AST nodes per top-level statement; generated statements need a few hundred at most
+CPU_NET = 120.0              # seconds of process CPU time per statement (safety net only)
+WALL_NET = 120.0             # seconds of wall-clock per statement (safety net only: something awaits for ever)
 
 
 def _on_alarm(signum, frame):
+    _guard["kind"] = _guard["kind"] or "cpu"
     raise _WallTimeout()
+
+
+_steps_installed = False
+
+
+def install_step_counter():
+    """count AstEval.aeval calls (every AST node the interpreter evaluates goes through it)"""
+    global _steps_installed
+    if _steps_installed:
+        return
+    import functools
+    from custom_components.pyscript.eval import AstEval
+    orig = AstEval.aeval
+
+    @functools.wraps(orig)
+    async def aeval(self, arg, undefined_check=True):
+        _steps["n"] += 1
+        if _steps["limit"] is not None and _steps["n"] > _steps["limit"]:
+            _guard["kind"] = _guard["kind"] or "steps"
+            raise _StepBudget()
+        return await orig(self, arg, undefined_check)
+
+    AstEval.aeval = aeval
+    _steps_installed = True
 
 
 _ps_ready = False
@@ -255,6 +292,7 @@ def _ps_setup(loop):
         _ps_ready = True
     TrigTime.hass = hass
     install_call_probe()
+    install_step_counter()
     return hass
 
 
@@ -315,8 +353,9 @@ async def _drain_tasks():
         await asyncio.wait(pend, timeout=2.0)
 
 
-async def ps_run(p, root):
+async def ps_run(p, root, scale=1):
     """returns (list of per-op strings, tables string or None, per-op pointer equality list)"""
+    _guard["kind"] = None
     from custom_components.pyscript.eval import AstEval
     from custom_components.pyscript.function import Function
     from custom_components.pyscript.global_ctx import GlobalContext, GlobalContextMgr
@@ -359,7 +398,7 @@ async def ps_run(p, root):
             a.global_sym_table.pop("_imp", None)
             for t in tasks:
                 try:
-                    mods.append(await asyncio.wait_for(t, 5.0))
+                    mods.append(await asyncio.wait_for(t, WALL_NET * scale))
                 except Exception:  # pylint: disable=broad-except
                     pass
             outs.append(f"race:{len({id(m) for m in mods if m is not None})}")
@@ -368,20 +407,29 @@ async def ps_run(p, root):
         a = evals[op[1]]
         before = _ps_ptrs(ctxs, a)
         src = "\n".join(r_stmt(p["funcs"], op[2])) + "\n"
+        _steps["n"], _steps["limit"] = 0, STEP_BUDGET * scale
         try:
             a.parse(src)
-            signal.setitimer(signal.ITIMER_PROF, 6.0)   # CPU-bound divergence (no suspension point) is cut here
+            signal.setitimer(signal.ITIMER_PROF, CPU_NET * scale)
             try:
-                await asyncio.wait_for(a.eval(), 3.0)
+                await asyncio.wait_for(a.eval(), WALL_NET * scale)
                 await _drain_tasks()
             finally:
                 signal.setitimer(signal.ITIMER_PROF, 0)
+                _steps["limit"] = None
             out = "ok"
-        except (asyncio.TimeoutError, _WallTimeout):
+        except _StepBudget:
+            out = "diverges"
+        except asyncio.TimeoutError:
+            _guard["kind"] = _guard["kind"] or "wall"
+            out = "diverges"
+        except _WallTimeout:
             out = "diverges"
         except Exception as e:  # an exception raised by user code is an outcome
             out = exc_name(e)
             await _drain_tasks()
+        if _guard["kind"]:
+            out = "diverges"          # (also when the budget was hit inside a task the statement created)
         if out == "diverges":
             outs.append("diverges")
             return outs, None, restored
@@ -955,7 +1003,7 @@ def deep_setctx_case(rng):
             "tags": ["setctx-depth-%d" % depth] + (["setctx-in-try"] if in_try else [])}
 
 
-def run_three(p):
+def run_three(p, scale=1):
     """(impl, oracle, restored) for one interp-level case; the model column comes from the driver"""
     _probe.clear()
     root = tempfile.mkdtemp(prefix="pysc_c11_")
@@ -964,7 +1012,7 @@ def run_three(p):
         loop = asyncio.new_event_loop()
         asyncio.set_event_loop(loop)
         try:
-            outs, tabs, restored = loop.run_until_complete(ps_run(p, root))
+            outs, tabs, restored = loop.run_until_complete(ps_run(p, root, scale))
         finally:
             loop.close()
         pouts, ptabs = py_run(p, root)
@@ -1545,11 +1593,14 @@ def gen_cases(rng, tier, search):
     return cases
 
 
-def _run_one(payload):
+def _run_one(payload, scale=1):
+    """one case on the real code.  A cut by a guard is reported as {"guard": kind} together with the cut result; it is
+    not an outcome until the case was run again, alone, with a ten times larger budget (run_impl)."""
     try:
+        _guard["kind"] = None
         if payload["kind"] == "ha":
             signal.signal(signal.SIGPROF, _on_alarm)
-            signal.setitimer(signal.ITIMER_PROF, 60.0)
+            signal.setitimer(signal.ITIMER_PROF, 300.0 * scale)          # safety net: process CPU time
             cviol = []
             try:
                 tabs, cviol = ha_run(payload, payload["legacy"])
@@ -1558,20 +1609,45 @@ def _run_one(payload):
             finally:
                 signal.setitimer(signal.ITIMER_PROF, 0)
             orc = ha_oracle(payload)
-            return {"impl_tabs": tabs, "oracle_tabs": orc, "call_restore": cviol}
-        impl, orc, restored, cviol, probe = run_three(payload)
-        return {"impl": impl, "oracle": orc, "restored": restored, "call_restore": cviol, "probe": probe}
+            return {"impl_tabs": tabs, "oracle_tabs": orc, "call_restore": cviol, "guard": _guard["kind"]}
+        impl, orc, restored, cviol, probe = run_three(payload, scale)
+        return {"impl": impl, "oracle": orc, "restored": restored, "call_restore": cviol, "probe": probe,
+                "guard": _guard["kind"]}
     except BaseException as e:  # pylint: disable=broad-except
         import traceback
         return {"crash": f"{type(e).__name__}: {e}", "tb": traceback.format_exc()[-1500:]}
 
 
+GUARD_STATS = {"cut_in_first_run": 0, "resolved_by_rerun_alone": 0, "confirmed_by_rerun_alone": 0, "inconclusive": 0}
+
+
 def run_impl(cases):
     res = common.pmap(_run_one, [c.payload for c in cases], chunk=8)
+    for k, (c, r) in enumerate(zip(cases, res)):
+        if r.get("guard"):
+            # a guard cut this case while 12 workers shared the machine: run it again, ALONE, with 10x the budget.
+            # Only a cut that repeats is an outcome; the step budget is load independent, the CPU / wall-clock nets
+            # are not: a repeated cut by a net alone is reported as inconclusive, never as a verdict.
+            GUARD_STATS["cut_in_first_run"] += 1
+            r2 = _run_one(c.payload, scale=10)
+            if "crash" in r2 or not r2.get("guard"):
+                GUARD_STATS["resolved_by_rerun_alone"] += 1
+                res[k] = r = r2
+            elif r2["guard"] == "steps":
+                GUARD_STATS["confirmed_by_rerun_alone"] += 1
+                res[k] = r = r2
+            else:
+                GUARD_STATS["inconclusive"] += 1
+                r2["inconclusive"] = f"cut by the {r2['guard']} safety net twice (second time alone, 10x budget)"
+                res[k] = r = r2
     for c, r in zip(cases, res):
         if "crash" in r:
             raise RuntimeError(f"harness crash on a case: {r['crash']}\n{r['tb']}")
         c.payload["_run"] = r
+        if r.get("inconclusive"):
+            c.line = None                 # no tie, no verdict: see verdict()
+            c.impl = "inconclusive"
+            continue
         if c.payload["kind"] == "ha":
             c.impl = r["impl_tabs"]
         else:
@@ -1608,6 +1684,8 @@ common._execute = _execute
 
 def verdict(c):
     r = c.payload.get("_run", {})
+    if r.get("inconclusive"):
+        return None
     deep = c.payload.get("switch_ops") or {}
     if r.get("call_restore") and not deep:
         return "evaluator pointers not restored after a call: " + r["call_restore"][0]
@@ -1771,7 +1849,9 @@ def extra_coverage(cases):
             t = tok.split("@")[0]
             if t and t != "ok":
                 excs[t] = excs.get(t, 0) + 1
-    return {"top_level_statement_kinds": ops, "statement_outcomes_other_than_ok": excs,
+    return {"guards": dict(GUARD_STATS, note="a case cut by a guard is re-run alone with 10x budget; only a repeated "
+                                               "step-budget cut (load independent) counts as divergence"),
+            "top_level_statement_kinds": ops, "statement_outcomes_other_than_ok": excs,
             "cases_by_family": {k: sum(1 for c in cases if c.payload["kind"] == k) for k in ("interp", "ha")},
             "spec_column_equals_model_on_setctx_free_cases": sum(
                 1 for c in cases if c.payload["kind"] == "interp" and c.spec and c.model
